@@ -14,6 +14,21 @@ implementation's own outputs (results and table snapshots):
 namespace Driver.C10
 open Driver.TC
 
+structure Sys2St where
+  handlers : Nat := 0
+  lat : Nat := 0
+  /-- tag → behaviour of the handler that accepts it -/
+  beh : List (Nat × String) := []
+  /-- number of client exchanges (an upper bound of the first messages nobody may be free to accept) -/
+  nX : Nat := 0
+  flood : Bool := false
+  /-- something closes the PASE session under its exchanges (cancelled client, flood, dropped / mute handler) -/
+  pDisturbed : Bool := false
+  hasW : Bool := false
+  wOver : Bool := false
+deriving Inhabited
+
+
 structure OSt where
   prev : ISnap := {}
   now : Nat := 1000
@@ -26,6 +41,9 @@ structure St where
   /-- `sys` cases: is this a system-level case, and how many replies the injected datagrams may cause -/
   sys : Bool := false
   allowed : Nat := 0
+  sys2 : Option Sys2St := none
+  /-- `x` lines of the current sys2 case, judged when the case is complete (at `quiesce`) -/
+  sys2X : List (List String × String) := []
 
 /-! ### system-level monitor (`sys` cases: two real nodes, unsolicited datagrams)
 Specification: a datagram that belongs to no session and is not a session-establishment request is
@@ -61,6 +79,83 @@ def sysStep (st : St) (w : List String) (res : String) : St × String :=
       else (st, "ok")
     | _ => (st, "BAD run result")
   | _ => (st, "BAD sys op")
+
+
+/-! ### system-level oracle, second stream (`sys2` cases: real handlers, concurrent exchanges on one
+PASE session and on unsecured sessions of two peers, handlers dropped by the executor, client tasks
+cancelled, sessions closed under messages in flight). Written from the property text. -/
+
+def kvOf (ws : List String) (k : String) : String :=
+  match ws.find? (·.startsWith (k ++ "=")) with
+  | some w => (w.drop (k.length + 1)).toString
+  | none => ""
+
+def kvNat (ws : List String) (k : String) : Nat := (kvOf ws k).toNat?.getD 0
+
+/-- messages that may have to wait for the accept time-out one after the other in front of a victim:
+while it stays small the retransmission budget of the other exchanges (≈ 6 s) is not at stake -/
+def Sys2St.unclaimedBound (s : Sys2St) : Nat := s.nX + (if s.flood then 5 else 0) - s.handlers
+
+def sys2Step (s : Sys2St) (w : List String) (res : String) : Sys2St × String :=
+  let rw := words res
+  let v (s : Sys2St) (o : Option String) : Sys2St × String :=
+    match o with
+    | some why => (s, s!"ORA {why}")
+    | none => (s, "ok")
+  if res = "panic" then (s, "ORA the device (or a controller) panicked") else
+  let crossBad : Option String :=
+    if kvNat rw "cross" != 0 || kvNat rw "hcross" != 0 then
+      some "a message was delivered to an exchange it does not belong to (other session, exchange id or role)"
+    else none
+  match w.getD 0 "" with
+  | "w" =>
+    let failed := (rw.headD "").startsWith "fail"
+    v { s with hasW := true, wOver := failed } crossBad
+  | "b" =>
+    v { s with beh := ((w.getD 1 "").toNat?.getD 0, w.getD 2 "echo") :: s.beh } crossBad
+  | "flood" => v { s with flood := true, pDisturbed := true } none
+  | "x" =>
+    let k := (w.getD 1 "").toNat?.getD 0
+    let onP := kvOf w "s" != "u"
+    let cancelled := kvOf w "cancel" != ""
+    let b := ((s.beh.find? (·.1 == k)).map (·.2)).getD "echo"
+    let rough := b.startsWith "dropat" || b.startsWith "mute"
+    let s' := { s with nX := s.nX + 1, pDisturbed := s.pDisturbed || (onP && (cancelled || rough)) }
+    v s' crossBad
+  | "quiesce" =>
+    let z (k what : String) : Option String :=
+      if kvNat rw k != 0 then some s!"quiescent, but {what} ({k}={kvOf rw k})" else none
+    let first (l : List (Option String)) : Option String := l.findSome? id
+    v s (first [
+      z "xd" "a dropped exchange was never closed",
+      z "xp" "an accept-pending exchange without a waiting message was left behind",
+      (if kvNat rw "xo" > (if s.hasW then 1 else 0) then some s!"quiescent, but exchanges are still owned (xo={kvOf rw "xo"})" else none),
+      (if kvNat rw "rxmax" > Consts.acceptTimeoutMs + 50 + 30 then
+         some s!"a message stayed in the RX slot for {kvOf rw "rxmax"} ms: longer than the accept deadline plus one poll" else none),
+      (if kvNat rw "wfail" != 0 && s.unclaimedBound ≤ 4 then
+         some "the watchdog exchange on its own session failed: the receive path stopped serving it" else none)])
+  | "probe" =>
+    -- (without any generic handler nobody can serve a new exchange: nothing to demand)
+    if s.handlers = 0 then v s crossBad
+    else if (rw.headD "") != "ok" then v s (some s!"after the disturbance a fresh exchange was not served: {res}")
+    else if kvNat rw "lat" > 2 * s.lat + 100 then v s (some s!"after the disturbance a fresh exchange was served only after {kvOf rw "lat"} ms")
+    else v s crossBad
+  | _ => (s, "BAD sys2 op")
+
+/-- second pass over the `x` results: an accepted exchange with a well-behaved handler on a session
+nothing else closes must complete ("other exchanges keep flowing") -/
+def sys2Flow (s : Sys2St) (w : List String) (res : String) : Option String :=
+  let rw := words res
+  if w.getD 0 "" != "x" then none else
+  let k := (w.getD 1 "").toNat?.getD 0
+  let onP := kvOf w "s" != "u"
+  let b := ((s.beh.find? (·.1 == k)).map (·.2)).getD "echo"
+  let good := b.startsWith "echo" || b.startsWith "stall"
+  let accepted := kvOf rw "acc" != "-" && kvOf rw "acc" != ""
+  if (rw.headD "").startsWith "fail" && good && accepted && kvOf w "cancel" == "" && !(onP && s.pDisturbed)
+      && s.unclaimedBound ≤ 4 then
+    some s!"exchange {k} was accepted by a handler that answers, nothing closed its session, yet it failed: {rw.headD ""}"
+  else none
 
 def ownerIdx (s : ISess) (exch : Nat) (initiator : Bool) : Option Nat :=
   let rec go : List (Option ISlot) → Nat → Option Nat
@@ -204,8 +299,22 @@ def oracle (o : OSt) (w : List String) (res : String) (snap : ISnap) : OSt × Op
 def step (st : St) (line : String) : St × String :=
   let (op, out) := splitArrow line
   match words op with
-  | "case" :: _ :: kind => ({ m := newCase kind, sys := kind.head? = some "sys" }, "case")
+  | "case" :: _ :: kind =>
+    if kind.head? = some "sys2" then
+      ({ m := newCase kind, sys2 := some { handlers := kvNat kind "H", lat := kvNat kind "lat" } }, "case")
+    else ({ m := newCase kind, sys := kind.head? = some "sys" }, "case")
   | w =>
+    match st.sys2 with
+    | some s2 =>
+      let (s2', o) := sys2Step s2 w out
+      let st' := { st with sys2 := some s2', sys2X := if w.getD 0 "" = "x" then (w, out) :: st.sys2X else st.sys2X }
+      -- the flow clause needs the whole script (who disturbs the PASE session): judged at `quiesce`
+      if w.getD 0 "" = "quiesce" && o = "ok" then
+        match st'.sys2X.findSome? (fun (xw, xr) => sys2Flow s2' xw xr) with
+        | some why => (st', s!"ORA {why}")
+        | none => (st', o)
+      else (st', o)
+    | none =>
     if st.sys then sysStep st w out else
     let (res, snapS) := splitHash out
     let (m', dis) := modelStep st.m op out
